@@ -2,7 +2,7 @@
 Theorems: coq/Props/C04.v.  Correspondence S4: programs with 1-3 rules  &tel{phi} :- body  (phi over & | ~ > >: >? >* >> ;> ;>:
 n-fold next and keywords) together with facts/choices/other rules over the same atoms, compared at every horizon of one incremental
 run with the temporal stable models computed by Oracle.tsm_enum (full THT_f equivalence, both directions, with multiplicity)."""
-import gen, s4, lang, findings
+import gen, s4, lang, findings, hdstruct
 from props import c01
 
 PROP_FILE = 'Props/C04.v'
@@ -12,6 +12,10 @@ ASSUMPTIONS = ['gringo/clasp contract G1-G6 (DESIGN.md 5.3)',
                'completeness of the head translation (every temporal stable model is reported) is NOT a theorem; it is covered by this correspondence only (a test)']
 def replay(ctx, payload):
     inp = payload['input']
+    if 'head_structure' in inp:
+        tt = lambda x: tuple(tt(y) for y in x) if isinstance(x, list) else x
+        r = hdstruct.compare(ctx, [[(p_, [tt(f) for f in els]) for p_, els in inp['head_structure']]], inp.get('H', 3))[0]
+        return r['status'] in ('differ', 'implerror', 'modelerror')
     if 'intervals' in inp:
         q = [tuple(x) for x in inp['intervals']]
         a = ctx.impl().run([{'cmd': 'intervalset', 'intervals': [list(x) for x in q]}])[0]
@@ -129,6 +133,22 @@ def run(ctx):
                                            'input': {'intervals': [list(x) for x in q]}})
     res['coverage']['evaluations'] += len(seqs)
     res['coverage']['interval_sequences'] = len(seqs)
+    # structural correspondence: HeadFormula.translate call by call (formula object, clauses, rules, schedule) against the extracted Model/HeadDefs.v
+    hcs = hdstruct.cases(ctx, 60 if ctx.quick else 400)
+    hrecs = hdstruct.compare(ctx, hcs, 3)
+    hstat = {}
+    for rules, r in zip(hcs, hrecs):
+        hstat[r['status']] = hstat.get(r['status'], 0) + 1
+        if r['status'] in ('differ', 'implerror', 'modelerror'):
+            res['counterexamples'].append({'key': 'c04:structure:' + r['program'].replace('\n', ' '), 'what': 'HeadFormula.translate and the model Model/HeadDefs.v differ: %s' % r.get('what'),
+                                           'input': {'head_structure': [[p_, list(els)] for p_, els in rules], 'H': 3, 'program': r['program']}})
+    res['coverage']['evaluations'] += len(hrecs)
+    res['coverage']['head_structure_status_histogram'] = hstat
+    res['coverage']['head_structure_calls_compared'] = sum(r['calls'] for r in hrecs)
+    res['coverage']['head_structure_clauses_compared'] = sum(r['clauses'] for r in hrecs)
+    res['coverage']['rule'] += ('; structure: %d programs of 1-2 rules with a head formula (all head operators, keywords, constants, classical negation, several elements); every call of '
+                                'HeadFormula.translate in a run of 4 steps is compared with the extracted model (formula object, ordered clauses, one rule per clause with head atoms, body formulas '
+                                'and the literal of the theory atom, schedule of the calls)' % len(hrecs))
     res['coverage']['operator_histogram'] = dict(sorted(ops.items()))
     res['coverage']['generated_but_skipped_in_open_finding_class'] = dict(skipped)
     return res
